@@ -19,6 +19,7 @@ mod net;
 mod plan;
 mod rng;
 mod scn;
+mod sha1;
 mod shrink;
 mod world;
 
